@@ -92,6 +92,19 @@ CHECKS = {
                 "(first data segment of a direction displaced)",
         "technique": "explicit-state BFS over arrival schedules on the real object with state hashing; exhaustive cut sets",
     },
+    "C03": {
+        "category": "fault_enumeration",
+        "text": "Every single fault of every family (delete any packet, truncate/start the victim at any packet, every subset of "
+                "its key-log lines, randomised secrets, unsupported ServerHello suites, bit flips / overwrites / truncations at "
+                "enumerated byte positions of every packet, plain HTTP on 443, injected UDP datagrams: all strings <=3 over 11 "
+                "symbols and every first byte) applied to each of 10 victim classes captured together with a healthy TLS and a "
+                "healthy QUIC bystander. Oracle: no abort, strict-valid output, bystanders byte-identical to the fault-free run, "
+                "victim export a prefix (QUIC: in-order subsequence) for information-removing faults.",
+        "design_ref": "DESIGN.md section 5, C03",
+        "note": "trusted: peer models, strict reader; single faults only (no fault pairs); byte positions are strided in the quick "
+                "tier and complete in the thorough tier; bystanders are one TLS 1.2 GCM and one QUIC AES-GCM flow",
+        "technique": "exhaustive single-fault enumeration at every position against a fault-free differential baseline",
+    },
 }
 
 NOT_YET = "check not built yet in this round (planned: bounded exhaustive exploration, see DESIGN.md section 5)"
